@@ -20,7 +20,7 @@ import (
 func TestVerifC11(t *testing.T) {
 	res := vx.New("a case is one (tree of staticcheck.conf files, -checks/-fail flag lists) combination, enumerated in list-length order; in part A each is loaded and resolved by the real config.Load/Merge/filterAnalyzerNames and compared with the documentation model for every registered check; non-trivial = the resolved set differs from the default set (A), the problem lies outside the -fail set (exit cases), or the run's printed problems are a proper subset of / differ from the default run (B)")
 	defer res.Write()
-	budget := vx.Pick(70*time.Second, 15*time.Minute)
+	budget := vx.Pick(80*time.Second, 15*time.Minute)
 	if s := os.Getenv("C11_BUDGET"); s != "" { // development aid
 		if d, err := time.ParseDuration(s); err == nil {
 			budget = d
@@ -53,6 +53,8 @@ func TestVerifC11(t *testing.T) {
 			env.prepare(c.Fail.List)
 			env.exitOne(c)
 			res.Eval(1)
+		case "P":
+			env.replayP(raw)
 		case "B":
 			var c c11CaseB
 			json.Unmarshal(raw, &c)
@@ -71,6 +73,11 @@ func TestVerifC11(t *testing.T) {
 		env.runFailAndExit()
 		env.c11Probes()
 		res.Count("FX_wall_ms", time.Since(t0).Milliseconds())
+	}
+	if only == "" || only == "A" || only == "P" {
+		t0 := time.Now()
+		env.runPartP()
+		res.Count("P_wall_ms", time.Since(t0).Milliseconds())
 	}
 	if env.capped.Load() {
 		// the in-process parts already failed massively; the slow end-to-end part adds nothing
